@@ -22,7 +22,7 @@ import ir, flow, variants
 from common import where, fwhere
 import scanner_ids as S
 from scanner_ids import scanner
-from c05 import esig, array_elem, action_switch, eob_constant, eof_action_stores, stores_of, loads_of, copies_of
+from c05 import Cases, loop_over_conditions, esig, array_elem, action_switch, eob_constant, eof_action_stores, stores_of, loads_of, copies_of
 
 # ---------------------------------------------------------------- shared scanner facts
 
@@ -211,6 +211,55 @@ def r3_generator(ctx):
         else: rep.ok('C10.R3', '%s:%s %s: for i = 1..lastsc, !sceof[i] -> %s with scname[i]' % (c.loc[0], c.line, g.name, ARM))
     return n
 
+def r3_unqualified(ctx):
+    """parse.y, <<EOF>> without a <..> list: the loop that selects the start conditions for the action runs i = 1..lastsc and
+    selects i exactly when !sceof[i] - inclusive and exclusive conditions alike (no other per-condition test)."""
+    rep = ctx.rep; P = ctx.flex
+    f = P.fn('yyparse')
+    if f is None: rep.broken('C10.R3: yyparse not found')
+    cs = Cases(P, f)
+    cands = []
+    for x in f.ins:
+        if x.op != 'store' or array_elem(f, x.ops[1], 'scon_stk') is None: continue
+        label = cs.label_of(x.blk)
+        if label is None: continue
+        vs_ = esig(f, x.ops[0])
+        if vs_[0] != 'ld': continue
+        # pushes its own loop variable ...
+        if not any(y.op == 'store' and esig(f, y.ops[1]) == vs_[1] and esig(f, y.ops[0]) in (('add', vs_, ('c', 1)), ('add', ('c', 1), vs_)) for y in cs.ins(label)): continue
+        # ... in the action that goes on to build_eof_action()
+        if not any(y.op == 'call' and y.callee == 'build_eof_action' for y in cs.ins(label)): continue
+        cands.append((x, label, vs_))
+    if len(cands) != 1: rep.broken('C10.R3: expected one loop that pushes start conditions for an unqualified <<EOF>>, found %d' % len(cands))
+    x, label, vs_ = cands[0]
+    key = 'C10.R3:parse.y:unqualified-eof:scon_stk'
+    why = loop_over_conditions(cs, label, x.blk, vs_)
+    guard = False; extra = set()
+    for br, t in cs.deps(label, x.blk):
+        con = S.edge_constraint(f, br, t.name)
+        for d in (flow.value_slice(f, br.ops[0]) if br.ops else []):
+            if d.op != 'load': continue
+            sg = esig(f, ('reg', d.res))
+            if sg == vs_ or sg == ('ld', ('g', 'lastsc')) or sg == ('ld', ('g', 'scon_stk_ptr')): continue
+            if sg[0] == 'ld' and sg[1][0] == 'gep' and sg[1][1] == ('ld', ('g', 'sceof')) and sg[1][2] == vs_:
+                if con and con[0] == 'eq' and con[2] == ('int', 0) and S.strip_ext(f, con[1]) == ('reg', d.res): guard = True
+                continue
+            if sg[0] == 'ld' and sg[1][0] == 'gep' and sg[1][1][0] == 'ld': continue      # the base pointer load of an array element (reported through the element)
+            extra.add(ir.loc_str(ir.Resolver(f).loc(d.ops[0])))
+        # array elements other than sceof[i]
+        for d in (flow.value_slice(f, br.ops[0]) if br.ops else []):
+            if d.op == 'load':
+                sg = esig(f, ('reg', d.res))
+                if sg[0] == 'ld' and sg[1][0] == 'gep' and sg[1][1][0] == 'ld' and sg[1][1] != ('ld', ('g', 'sceof')): extra.add('%s[]' % (sg[1][1][1][1] if sg[1][1][1][0] == 'g' else '?'))
+    extra = {e for e in extra if not e.startswith('@sceof') and e not in ('@scon_stk_ptr', '@lastsc')}
+    if why: rep.fail('C10.R3', key + ':loop', where(x), '<<EOF>> without a start-condition list: %s' % why)
+    elif not guard: rep.fail('C10.R3', key + ':guard', where(x), '<<EOF>> without a start-condition list does not select start condition i exactly under !sceof[i]')
+    elif extra: rep.fail('C10.R3', key + ':extra-condition', where(x), '<<EOF>> without a start-condition list selects start condition i under an additional test of %s: '
+                         'conditions without their own <<EOF>> rule (e.g. exclusive ones) would fall back to the default EOF action' % ', '.join(sorted(extra)),
+                         replay_input='%x X\n%%\n<<EOF>> { return 7; }\n%%\n-- after yybegin(X), end of file must return 7')
+    else: rep.ok('C10.R3', 'parse.y:%s unqualified <<EOF>>: scon_stk[++scon_stk_ptr] = i for i = 1..lastsc exactly under !sceof[i]' % x.line)
+    return 1
+
 def probe_conditions(v):
     """number of start conditions the probe declares (INITIAL included) - read from the probe text the machinery owns"""
     k = 1
@@ -352,11 +401,100 @@ def r5(ctx, sc):
     else: rep.fail('C10.R5', key, where(br), why + ' [variant %s]' % v.name, variant=v.describe())
     return n
 
+# ---------------------------------------------------------------- R7
+
+INPUT_CALLS = ('yyread', 'read', 'fread', 'getc', 'fgetc', '_IO_getc', 'LexerInput')
+
+def status_constants(sc):
+    """(NEW, EOF_PENDING) as the scanner reads them: the constant yylex compares yy_buffer_status with, and the one
+    yy_get_next_buffer compares it with"""
+    out = []
+    for f in (big_yylex(sc), sc.fn('yy_get_next_buffer')):
+        c = None
+        if f is not None:
+            res = ir.Resolver(f)
+            for x in f.ins:
+                if x.op == 'icmp' and x.pred in ('eq', 'ne'):
+                    for val, k in ((x.ops[0], x.ops[1]), (x.ops[1], x.ops[0])):
+                        d = f.def_of(S.strip_ext(f, val)) if k[0] == 'int' else None
+                        if d is not None and d.op == 'load' and sc.is_buf(res.loc(d.ops[0]), 'yy_buffer_status'): c = k[1]
+                    if c is not None: break
+        out.append(c)
+    return out
+
+def r7(ctx, sc):
+    """life cycle of yy_buffer_status: NEW (flush / scan_buffer) -> NORMAL (yylex, only when it finds NEW) -> EOF_PENDING
+    (yy_get_next_buffer, which then stops reading); nothing else writes the field."""
+    rep = ctx.rep; v = sc.v; n = 0
+    if big_yylex(sc) is None: return 0
+    NEW, PENDING = status_constants(sc)
+    if NEW is None or PENDING is None or NEW == PENDING: rep.broken('C10.R7: cannot read YY_BUFFER_NEW / YY_BUFFER_EOF_PENDING from the comparisons in yylex / yy_get_next_buffer of %s' % v.name)
+    CREATORS = ('yy_flush_buffer', 'yy_scan_buffer')
+    for f in sc.mod.functions.values():
+        res = ir.Resolver(f)
+        st = [x for x in f.ins if x.op == 'store' and sc.is_buf(res.loc(x.ops[1]), 'yy_buffer_status')]
+        if not st: continue
+        c = sc.canon(f); c0 = sc.prog.cfg(f, cut=False)
+        for x in st:
+            n += 1
+            val = x.ops[0]
+            key = sc.key('C10.R7', c, 'status-store')
+            if val[0] != 'int':
+                rep.fail('C10.R7', key, where(x), '%s stores a computed value into yy_buffer_status [variant %s]' % (c, v.name), variant=v.describe()); continue
+            k = val[1]
+            if k == NEW:
+                if c in CREATORS: rep.ok('C10.R7', '%s %s:%s status := NEW' % (v.name, c, x.line))
+                else: rep.fail('C10.R7', key + ':new', where(x), '%s marks a buffer as new; only yy_flush_buffer and yy_scan_buffer (re)create buffer contents [variant %s]' % (c, v.name), variant=v.describe())
+            elif k == PENDING:
+                if c == 'yy_get_next_buffer' and sc.via_current(res.loc(x.ops[1])): rep.ok('C10.R7', '%s %s:%s status := EOF_PENDING (current buffer)' % (v.name, c, x.line))
+                else: rep.fail('C10.R7', key + ':pending', where(x), '%s marks a buffer as having seen end of file; only yy_get_next_buffer may, for the current buffer [variant %s]' % (c, v.name), variant=v.describe())
+            else:
+                # NORMAL: only yylex, only for the current buffer, only on the edge where the same field was found to be NEW
+                guarded = False
+                for br, t in c0.control_deps(x.blk):
+                    con = S.edge_constraint(f, br, t.name)
+                    if con is None or con[0] != 'eq' or con[2] != ('int', NEW): continue
+                    d = f.def_of(S.strip_ext(f, con[1]))
+                    if d is not None and d.op == 'load' and sc.is_buf(res.loc(d.ops[0]), 'yy_buffer_status') and sc.via_current(res.loc(d.ops[0])): guarded = True
+                if c != 'yylex' or not sc.via_current(res.loc(x.ops[1])):
+                    rep.fail('C10.R7', key + ':normal', where(x), '%s sets yy_buffer_status to %d; only yylex moves the current buffer from NEW to NORMAL [variant %s]' % (c, k, v.name), variant=v.describe())
+                elif not guarded:
+                    rep.fail('C10.R7', key + ':normal-unguarded', where(x),
+                             'yylex sets yy_buffer_status to %d (NORMAL) without having found it to be NEW (%d): an end-of-buffer action would wipe EOF_PENDING (%d), the end of input '
+                             'is forgotten and the source is read again after the pending text [variant %s]' % (k, NEW, PENDING, v.name), variant=v.describe())
+                else:
+                    rep.ok('C10.R7', '%s yylex:%s status := %d only under status == NEW' % (v.name, x.line, k))
+    # reader side: once EOF is pending yy_get_next_buffer does not read the source again
+    g = sc.fn('yy_get_next_buffer')
+    if g is not None:
+        n += 1
+        res = ir.Resolver(g); cfg = sc.prog.cfg(g)
+        key = sc.key('C10.R7', 'yy_get_next_buffer', 'pending-stops-reading')
+        edges = []
+        for b in g.blocks:
+            br = b.ins[-1]
+            if br.op != 'br' or not br.ops: continue
+            for t in br.targets:
+                con = S.edge_constraint(g, br, t)
+                if con and con[0] == 'eq' and con[2] == ('int', PENDING):
+                    d = g.def_of(S.strip_ext(g, con[1]))
+                    if d is not None and d.op == 'load' and sc.is_buf(res.loc(d.ops[0]), 'yy_buffer_status') and sc.via_current(res.loc(d.ops[0])): edges.append((br, t))
+        reads = [y for y in g.ins if y.op in ('call', 'invoke') and sc.callee(y) in INPUT_CALLS]
+        if not edges or not reads:
+            rep.broken('C10.R7: yy_get_next_buffer of %s: %d tests of EOF_PENDING, %d input calls' % (v.name, len(edges), len(reads)))
+        bad = [y for br, t in edges for y in cfg.reach_from_block(g.bmap[t]) if y in reads]
+        # and every input call is behind the other edge of such a test
+        unguarded = [y for y in reads if y in S.entry_reach(cfg, g, avoid=[br for br, t in edges])]
+        if bad: rep.fail('C10.R7', key, where(bad[0]), 'yy_get_next_buffer reads the input source although end of file is pending for the buffer [variant %s]' % v.name, variant=v.describe())
+        elif unguarded: rep.fail('C10.R7', key, where(unguarded[0]), 'yy_get_next_buffer can read the input source without having tested yy_buffer_status for EOF_PENDING [variant %s]' % v.name, variant=v.describe())
+        else: rep.ok('C10.R7', '%s yy_get_next_buffer: %d input call(s), all behind status != EOF_PENDING' % (v.name, len(reads)))
+    return n
+
 # ---------------------------------------------------------------- driver
 
 def run(ctx):
     rep = ctx.rep
-    g3 = r3_generator(ctx)
+    g3 = r3_generator(ctx) + r3_unqualified(ctx)
     vs = ctx.variants()
     rep.require(len(vs) >= 100, 'only %d scanner variants compiled to IR' % len(vs))
     multi = 0
@@ -367,12 +505,14 @@ def run(ctx):
         if k > 1: multi += 1
         r4(ctx, sc)
         r5(ctx, sc)
+        r7(ctx, sc)
     rep.setcount('variants_analysed', len(vs))
     rep.setcount('variants_with_several_start_conditions', multi)
     rep.setcount('generator_obligations_R3', g3)
     rep.floor('C10.R1', 200, 'yylex and yyinput in >=100 variants')
-    rep.floor('C10.R3', 350, '4 generator obligations + 4 EOF arms in each of >=80 multi-condition variants + 1 in the others')
+    rep.floor('C10.R3', 351, '5 generator obligations + 4 EOF arms in each of >=80 multi-condition variants + 1 in the others')
     rep.floor('C10.R4', 200, 'yy_init_buffer and yyrestart in every variant')
+    rep.floor('C10.R7', 500, 'the status stores of yylex, yy_get_next_buffer, yy_flush_buffer, yy_scan_buffer and the reader obligation in >=100 variants')
     rep.floor('C10.R5', 550, '4 API functions + 2 yylex obligations in >=100 variants')
     rep.undecided += ['that every byte already read is still tokenised before the EOF action (value-level: EOB_ACT_LAST_MATCH bookkeeping)',
                       'chains of yywrap() calls and what the user function does',
